@@ -86,6 +86,7 @@ def gen_cases(spec, ctx):
         key = spec.get("batch", spec.get("k"))
         r = random.Random(f"C07/{spec.get('seed', 0)}/{st}/{key}")
         from gv import formats
+        cases = []
         for i in range(spec["n"]):
             t = "json"
             if r.random() < 0.4:
@@ -106,7 +107,20 @@ def gen_cases(spec, ctx):
                 t, tb = (r.choice(["json", "json5", "yaml", "pickle"]), "plist") if i % 12 == 5 else \
                     ("plist", r.choice(["json", "yaml", "pickle"]))
                 mode = r.choice([["-e"], ["-d"], []])
-            yield {"a": a, "b": b, "ds": ds, "le": le, "mode": mode, "idx": i, "kind": st, "type": t, "type_b": tb}
+            if i % 12 in (2, 8):
+                # number twins (1, 1.0, true) against the same target: python-equal objects with different renderings and
+                # costs -- a process-wide cache keyed by equality would mix them up
+                x = [1, 1.0, True, 0, 0.0, False, 2, 2.0][(i // 12 + (i % 12 == 8)) % 8]
+                a = {"a": x, "b": 2, "c": [x, 5]}
+                b = {"c": [5], "d": 5}
+                t = tb = "json"
+                mode = []
+            cases.append({"a": a, "b": b, "ds": ds, "le": le, "mode": mode, "idx": i, "kind": st, "type": t, "type_b": tb})
+        # the schedule dimension: every other hash seed runs the same batch in reverse order, so that a result which
+        # depends on what the process did before shows up as a cross-process digest mismatch
+        if st == "cross-seed" and int(spec.get("hashseed", 0)) % 2 == 1:
+            cases.reverse()
+        yield from cases
         return
     r = ctx.rng
     if st == "purity":
@@ -157,14 +171,15 @@ def check(case, ctx):
         if kind in ("cross-seed", "subprocess"):
             from gv import formats
             t = case.get("type", "json")
-            pa = families.tmpfile(formats.write(t, case["a"]), formats.EXT[t])
+            # file names appear in the output (HTML title, error messages): they must not depend on the schedule
+            pa = families.tmpfile(formats.write(t, case["a"]), formats.EXT[t], name=f"case{case['idx']}-first")
             tb = case.get("type_b", t)
             b_doc = case["b"]
             if tb in ("plist", "pickle", "yaml") and tb != t and not isinstance(b_doc, (dict, list)):
                 b_doc = [b_doc]
             if tb == "plist" and _has_none(b_doc):
                 tb = t
-            pb = families.tmpfile(formats.write(tb, b_doc), formats.EXT[tb])
+            pb = families.tmpfile(formats.write(tb, b_doc), formats.EXT[tb], name=f"case{case['idx']}-second")
             args = argv_for(case, pa, pb)
             if kind == "cross-seed":
                 # perturb allocation order: a hash-seed dependent amount of garbage stays alive
